@@ -40,6 +40,8 @@ type c13Case struct {
 	Opts   c13Opts       `json:"opts"`
 	Single *fsmodel.Node `json:"single,omitempty"`
 	Wild   bool          `json:"wild,omitempty"` // Src is a wildcard pattern (AllowWildcards)
+	// dstIsDir (model only): an earlier wildcard match has already made the destination path a directory
+	dstIsDir bool
 }
 
 func (c c13Case) String() string {
@@ -140,7 +142,9 @@ func expectCopy(src fsmodel.Tree, c c13Case) c13Expect {
 				continue
 			}
 			mc := c
-			mc.Wild, mc.Src, mc.DirC = false, n.Path, false
+			mc.Wild, mc.Src = false, n.Path
+			// the first match meets the destination as the caller left it; later ones find the directory it became
+			mc.dstIsDir = len(seen) > 0 || len(ex.created) > 0
 			one := expectCopyRaw(src, mc)
 			for _, m := range one.tree {
 				if !seen[m.Path] {
@@ -151,7 +155,9 @@ func expectCopy(src fsmodel.Tree, c c13Case) c13Expect {
 			for k := range one.loose {
 				ex.loose[k] = true
 			}
-			ex.created = one.created
+			if !mc.dstIsDir {
+				ex.created = one.created
+			}
 		}
 		ex.tree = fixGroups(ex.tree)
 		ex.tree.Sort()
@@ -192,11 +198,11 @@ func expectCopyRaw(src fsmodel.Tree, c c13Case) c13Expect {
 	// destination path of the top entry
 	var base string
 	switch {
-	case dstRel == "": // existing directory: a directory nests unless dir-contents, a file lands inside
+	case dstRel == "" || c.dstIsDir: // existing directory: a directory nests unless dir-contents, a file lands inside
 		if isDir && c.DirC {
-			base = ""
+			base = dstRel
 		} else {
-			base = path.Base(top)
+			base = path.Join(dstRel, path.Base(top))
 		}
 	default: // not-yet-existing name: the top entry takes that name
 		base = dstRel
@@ -444,6 +450,14 @@ func runC13(r *evid.Run) {
 	for _, o := range []c13Opts{{}, {Chown: true, Utime: true}, {Mode: 0640}, {AllowX: true}} {
 		for _, pat := range []string{"*", "?*", "d/*", "[a-z]*", "w/?x/*/f?", "w/*/*/*", "w/ax/*/*", "w/*/cc", "*/h?"} {
 			cases = append(cases, c13Case{Tree: "rich", Src: pat, Dst: "/", Opts: o, Wild: true})
+		}
+	}
+	// wildcard matches (directories first, then a file) merged into a destination the call has to create
+	for _, o := range []c13Opts{{}, {Chown: true, Utime: true}, {Utime: true}} {
+		for _, pat := range []string{"[d-h]*", "[de]", "[d-e]*"} {
+			for _, dst := range []string{"new", "new/deep/er"} {
+				cases = append(cases, c13Case{Tree: "rich", Src: pat, Dst: dst, DirC: true, Opts: o, Wild: true})
+			}
 		}
 	}
 	// a tolerant xattr error handler and a destination that refuses one attribute value
